@@ -24,6 +24,8 @@ run against the unlimited run).  Everything is proved on the cache-free machine 
   that completes after `N` statements: `L = 0 ∨ N ≤ L` ⇒ identical outcome; `0 < L < N` ⇒ `Exceeded (L)` at `count = L+1`;
 * `limit_prefix` — observable effects of the limited run are a prefix of the unlimited run's: for ANY preorder `E` on
   worlds that the host respects (`HostExt E`), and `limit_prefix_log` for the log of the concrete driver host;
+* `own_budget`, `own_budget_states`, `own_budget_session` — `execute` starts the counter itself: a run does not depend on
+  the counter an earlier run (or the host) left in the state, so the theorems hold for every run of a session separately;
 * `fuel_mono` — fuel is only a termination device: a result reached with fuel `f` is the result for every `f' ≥ f`;
 * `no_infinite_run_partial` — see the comment there for what "no script can run forever" means in the model.
 -/
@@ -317,6 +319,37 @@ theorem unknown_label_exact (cfg : Config W) (fuel : Nat) (P : List Stmt) (local
   · intro hno
     exact C08.jump_unknown cfg fuel P locals base pc st l h hb hno
 
+/-! ## every run has its own budget -/
+
+/-- **own_budget.** `execute_script` starts the counter itself (runtime.py:43, `options['statementCount'] = 0`): the run
+does not depend on the counter value the state it is given holds — the `statementCount` an earlier run left in the
+host's options object, or a value the host put there.  All theorems above are stated for an arbitrary start state, so
+they apply to every run of a host session separately. -/
+theorem own_budget (cfg : Config W) (fuel : Nat) (P : List Stmt) (base : Option String) (st : State W) (c : Nat) :
+    execute cfg fuel P base { st with count := c } = execute cfg fuel P base st := rfl
+
+/-- … so two start states with the same globals and the same world give the same run -/
+theorem own_budget_states (cfg : Config W) (fuel : Nat) (P : List Stmt) (base : Option String) (st st' : State W)
+    (hg : st.globals = st'.globals) (hw : st.world = st'.world) :
+    execute cfg fuel P base st = execute cfg fuel P base st' := by
+  cases st; cases st'
+  simp only at hg hw
+  subst hg hw
+  rfl
+
+/-- **own_budget_session.** A run started on what ANY earlier run left behind (`s₁` with its counter — the final state of
+a completed, aborted or failed run of another program under another limit) or on a state whose counter the host set to
+`c`: if without a limit it completes after `N` statements (counted from 0, whatever `s₁.count` is), then under `L > 0` it
+is the unlimited outcome when `N ≤ L` and otherwise the budget error for `L` with the counter at `L + 1`. -/
+theorem own_budget_session (cfg : Config W) (L : Nat) (hL : 0 < L) (fuel : Nat) (P : List Stmt) (base : Option String)
+    (s₁ : State W) (c : Nat) (N : Nat)
+    (hN : Res.count? (execute (withMax cfg 0) fuel P base { s₁ with count := 0 }) = some N) :
+    (N ≤ L ∧ execute (withMax cfg L) fuel P base { s₁ with count := c }
+        = execute (withMax cfg 0) fuel P base { s₁ with count := 0 }) ∨
+    (L < N ∧ ∃ s', execute (withMax cfg L) fuel P base { s₁ with count := c } = .err (.exceeded L) s' ∧
+        s'.count = L + 1) :=
+  abort_exact cfg L hL fuel P base { s₁ with count := 0 } N hN
+
 /-! ## the concrete host: the log only grows -/
 
 section ConcreteHost
@@ -431,6 +464,20 @@ def recP : List Stmt := [.function 0 (.user "f") [] false false recBody, .expr n
 example : obs (execute (withMax (xcfg [(0, { name := .user "f", args := [], lastArgArray := false, body := recBody })] []) 4)
       100 recP none s0)
     = ⟨"err", some (.exceeded 4), none, 5, [], libG ++ [(.user "f", .fn (.script 0))]⟩ := by decide +kernel
+
+/-- a session on one state: the endless loop under L = 5 leaves the counter at 6; the next run (nested includes, 6
+statements) under L = 6 on that state completes and is the run from a fresh state; under L = 4 it is aborted at 5 -/
+def s1 : State World := { s0 with count := 6 }
+example : (obs (execute (withMax (xcfg [] []) 5) 100 loopP none s0)).count = s1.count := by decide +kernel
+example : execute (withMax (xcfg [] files) 6) 100 mainP none s1 = execute (withMax (xcfg [] files) 6) 100 mainP none s0 :=
+  own_budget _ _ _ _ s0 6
+example : obs (execute (withMax (xcfg [] files) 6) 100 mainP none s1)
+    = ⟨"done", none, none, 6, ["b1", "b2", "a", "m"], libG⟩ := by decide +kernel
+example : ∃ s', execute (withMax (xcfg [] files) 4) 100 mainP none { s0 with count := 1000000000 }
+      = .err (.exceeded 4) s' ∧ s'.count = 5 := by
+  rcases own_budget_session (xcfg [] files) 4 (by decide) 100 mainP none s0 1000000000 6 (by decide +kernel) with h | h
+  · exact absurd h.1 (by decide)
+  · exact h.2
 
 end Examples
 
